@@ -304,6 +304,20 @@ func c18Case(c *ctx, t typeSpec, wrapped bool, sets []setOp, id string, ops []c1
 					nsr.RemoveField(fieldOrder(t)[1])
 				}
 			}
+			// editing the Type value obtained from the new instance or from the copy
+			// (its maps are the instance's own) must not reach the source either
+			for _, other := range []jsonapi.Resource{n, cpy} {
+				ot := other.GetType()
+				for name := range ot.Attrs {
+					ot.RemoveAttr(name)
+					break
+				}
+				for name := range ot.Rels {
+					ot.RemoveRel(name)
+					break
+				}
+				_ = ot.AddAttr(jsonapi.Attr{Name: "via-gettype", Type: jsonapi.AttrTypeInt})
+			}
 			if len(src.Attrs())+len(src.Rels()) != srcFields {
 				key, detail = "type-shared-with-new", "editing the type of the resource returned by New() changed the source's fields"
 			} else if !reflect.DeepEqual(srcBefore, readAll(t, src)) {
@@ -394,6 +408,14 @@ func runC18(c *ctx) {
 			}
 		}
 		c18Case(c, t, wrapped, sets, pick(c.r, dictIDs), ops, "random")
+	}
+	// every kind holding a non-zero value: the copy reads the same as its source
+	all := allKindsSpec("alltypes", "other")
+	for _, wrapped := range []bool{false, true} {
+		for i := 0; i < 4; i++ {
+			ops := c01Ops(c.r, all, true)
+			c18Case(c, all, wrapped, ops[1:], "id-all", nil, "all kinds copy")
+		}
 	}
 	runC18Types(c)
 }
